@@ -103,7 +103,7 @@ CLAIMED = {
     "C04": ("Coq proof over Best.v (stable sort model of get_best_trials) and HBSym.v + differential correspondence + two-run symmetry monitor",
             "C04_completed_first / C04_sorted / C04_left_out / C04_length: for every trial multiset, direction and n the result is the n best COMPLETED trials in the objective's order with no "
             "non-completed trial ahead of a completed one; C04_ranking_symmetric: maximising s ranks exactly like minimising -s, ties included; C04_hyperband_symmetric: Hyperband's promotion "
-            "issues the same trial under (flip direction, negate scores). Tie: get_best_trials of a real oracle vs the model on generated trial sets (tie order included); the same seeded history "
+            "issues the same trial under (flip direction, negate scores); C04_search_symmetric: for the generic lifecycle core two oracles whose score functions differ by the sign of the objective and whose populate_space cannot tell them apart answer EVERY request of ANY history identically (any number of tuners, retries, aborts, reloads), and C04_hyperband_search_symmetric instantiates it for Hyperband (the random and grid models carry no scores at all). Tie: get_best_trials of a real oracle vs the model on generated trial sets (tie order included); the same seeded history "
             "run on all four real oracles with (max, s) and (min, -s) must issue identical trials and rankings (this is how the Bayesian clause is covered: observed, not proved).",
             "Trusted: Coq kernel/vm_compute; python harness; Python sorted() stable; Bayesian symmetry is an observation on the implementation with the real GP.", "DESIGN.md section 6 C04"),
     "C01": ("Coq proof (invariant by induction over all operation sequences, for every populate_space) + differential correspondence of the lifecycle core with the four real oracles",
